@@ -87,8 +87,13 @@ TraceEndPkg ==
          c13pk == IF built /\ expect /\ ForeignLeak(f, c, Tree, m, evs) THEN {"C13.per_packager_entries_stay_in_theirs"} ELSE {}
          \* C05 at the level of a packaging: a content list that collides (for this format, with what the packager itself
          \* adds - the Debian changelog - included) is rejected, not built
-         c05 == IF built /\ st = "collision" THEN {"C05.collision_rejected_when_packaging"} ELSE {}
-         all == resultCl \cup pay[1] \cup pay[2] \cup other \cup c13 \cup c13pk \cup c05
+         c05 == (IF built /\ st = "collision" THEN {"C05.collision_rejected_when_packaging"} ELSE {})
+                \* what the packager ships is the plan: every ancestor of every entry is there, before it
+                \cup (IF built /\ expect /\ ("C01.payload_exact" \in pay[1] \/ "C04.parents_first" \in other)
+                      THEN {"C05.package_follows_the_plan"} ELSE {})
+         \* a package that was built although the list should have been rejected is still held to the container rules
+         strayStruct == IF built /\ ~expect THEN StructClauses(f, c, ScriptsConfigured(f, c), evs) ELSE {}
+         all == resultCl \cup pay[1] \cup pay[2] \cup other \cup c13 \cup c13pk \cup c05 \cup strayStruct
      IN /\ viol' = AddViol({ <<cid, pkgLine, n>> : n \in { x \in all : ~IsDoc(x) } })
         /\ drift' = AddDrift({ <<cid, pkgLine, n>> : n \in { x \in all : IsDoc(x) } })
         /\ merr' = IF expect /\ ~PlanInvOf(CtxOf(c, Tree, f), m) THEN merr \cup {<<cid, pkgLine, "PlanInv">>} ELSE merr
